@@ -73,6 +73,7 @@ type gen struct {
 	started map[uint64]byte
 	pending map[uint64]byte // id -> kind of nodes added by a proposed config change, not yet started
 	blocked map[uint64]bool
+	quiesced map[uint64]int // remaining quiesced ticks of a replica
 }
 
 func (g *gen) do(op string) raftsim.Result { return g.Do(op) }
@@ -156,7 +157,7 @@ func generate(r *vh.Rand, steps int) (string, []string) {
 	c.CQ = r.Bool()
 	c.PV = r.Bool()
 	nv := []int{1, 2, 3, 3, 3, 3, 4, 5, 5}[r.Intn(9)]
-	g := &gen{r: r, c: c, started: map[uint64]byte{}, pending: map[uint64]byte{}, blocked: map[uint64]bool{}, nextKey: 100}
+	g := &gen{r: r, c: c, started: map[uint64]byte{}, pending: map[uint64]byte{}, blocked: map[uint64]bool{}, quiesced: map[uint64]int{}, nextKey: 100}
 	g.Driver = &raftsim.Driver{C: c}
 	g.Record = func(op string, rt uint64) { g.ops = append(g.ops, fmt.Sprintf("%s @%d", op, rt)) }
 	var init []string
@@ -181,7 +182,16 @@ func generate(r *vh.Rand, steps int) (string, []string) {
 		switch x := r.Intn(100); {
 		case x < 28:
 			if !g.blocked[id] || r.Chance(1, 3) {
-				g.do(fmt.Sprintf("T %d", id))
+				// a quiesced replica (node.go: qs.quiesced()) gets QuiescedTick instead of Tick
+				if g.quiesced[id] > 0 {
+					g.quiesced[id]--
+					g.do(fmt.Sprintf("Q %d", id))
+				} else {
+					if r.Chance(1, 40) {
+						g.quiesced[id] = 1 + r.Intn(12)
+					}
+					g.do(fmt.Sprintf("T %d", id))
+				}
 				if !g.Stopped && r.Chance(3, 4) {
 					g.update(id)
 				}
